@@ -2,10 +2,11 @@
 
 pub mod c01;
 pub mod c02;
+pub mod c13;
 
 use crate::kernel::{Check, RunCtx, Stats, Tier, prng};
 
-pub static ALL: &[&'static dyn Check] = &[&c01::C01, &c02::C02];
+pub static ALL: &[&'static dyn Check] = &[&c01::C01, &c02::C02, &c13::C13];
 
 /// Determinism self-test: every case is planned and executed twice in this process; plans,
 /// findings and the statistics (which include every fault that fired and every probe) must be
@@ -45,4 +46,68 @@ pub fn selftest_determinism(check: &dyn Check, seed: u64, cases: u64) -> i32 {
         digest.get()
     );
     if diverged == 0 { 0 } else { 1 }
+}
+
+/// Domain validation: every generated file of every kind, read back fault-free through every
+/// reading-protocol variant, must reproduce the model exactly. Run at development time (and by
+/// `selftest domain`) so that generators never out-run the domain on which the unchanged tree
+/// round-trips.
+pub fn selftest_domain(seed: u64, cases: u64, only: Option<&str>) -> i32 {
+    use crate::fmt::{End, Source, kinds};
+    let mut bad = 0u64;
+    let mut n = 0u64;
+    for idx in 0..cases {
+        for &kind in kinds::ALL_KINDS {
+            if let Some(o) = only {
+                if kind.name() != o {
+                    continue;
+                }
+            }
+            let mut rng = crate::kernel::Rng::new(prng::derive(seed, "domain", idx));
+            let spec = kinds::FileSpec {
+                kind,
+                size_class: (idx % 4) as u8,
+                seed: rng.next_u64(),
+            };
+            let made = match crate::kernel::catch(|| kinds::make(&spec)) {
+                Ok(Ok(m)) => m,
+                Ok(Err(e)) => {
+                    bad += 1;
+                    if bad <= 20 {
+                        println!("MAKE-ERROR {spec:?}: {e}");
+                    }
+                    continue;
+                }
+                Err(p) => {
+                    bad += 1;
+                    if bad <= 20 {
+                        println!("MAKE-PANIC {spec:?}: {} {}", p.location, p.message);
+                    }
+                    continue;
+                }
+            };
+            for variant in 0..kind.variants() {
+                n += 1;
+                let obs = kinds::read(kind, variant, Source::plain(made.bytes.clone()));
+                let got = kinds::content_items(&obs.items);
+                let ok_bytes = match &made.flat {
+                    Some(f) if kind == kinds::Kind::Bgzf => obs.bytes == f.data,
+                    _ => true,
+                };
+                if obs.end != End::Eof || got != made.expected || !ok_bytes {
+                    bad += 1;
+                    if bad <= 20 {
+                        let d = crate::fmt::first_diff(&got, &made.expected);
+                        println!("MISMATCH {spec:?} variant {variant}: end={:?} first_diff={d:?}", obs.end);
+                        if let Some(i) = d {
+                            println!("   got: {:?}", got.get(i).map(|s| crate::fmt::clip(s)));
+                            println!("  want: {:?}", made.expected.get(i).map(|s| crate::fmt::clip(s)));
+                        }
+                    }
+                }
+            }
+        }
+    }
+    println!("selftest domain: reads={n} bad={bad}");
+    if bad == 0 { 0 } else { 1 }
 }
